@@ -16,6 +16,7 @@ judged scalar results.
 import itertools, random, struct, math, json, re, os, shutil
 from fractions import Fraction
 from harness.core import *
+from harness.props import _c08_formats as FF
 
 PID = "C08"
 LEVEL = "proof"
@@ -52,13 +53,20 @@ FBIN = CheckFn("c08-fbin", "Model.FloatOps", "float_binop_check", Tup(Nat, F64, 
 FUN = CheckFn("c08-fun", "Model.FloatOps", "float_unop_check", Tup(Nat, F64, F64), imports=["Model.FloatWire"])
 
 ASSUMPTIONS = [
-    "dtype float64 only (the PrimFloat model is binary64); float32 carriers are not exercised",
+    "both dtypes of the library are exercised at the float level: every float32 and float64 result of the torch primitives / semiring methods (Real add/mul/sub/star/from_int, Viterbi add/mul/sub/star/from_int, Log mul, comparisons, nan_to_num, relu; plain 0-dim/1-dim tensors and PatternedTensors with a default) is compared bit for bit (any NaN = any NaN) with the Flocq model Model/FloatFormat.v evaluated by vm_compute; the exact-carrier judgement, the law instances and the PrimFloat model use float64",
+    "PatternedTensor defaults are Python floats (binary64) also when the physical tensor is float32: the float-format stream uses defaults that are float32 numbers; arithmetic on them in binary64 followed by the conversion in to_dense rounds like the float32 operation (innocuous double rounding, 53 >= 2*24+2), except that a default beyond the float32 range cannot be densified (finding F22)",
+    "RealSemiring on PatternedTensors is exercised on its carrier [0, +inf] only at the float-format level (outside it the code's nan_to_num default neginf=None gives -float_max on tensor elements but -inf for a binary64 default converted to float32)",
+    "from_int is compared for Python ints below 2^53 (torch converts a Python int to float32 through binary64, which rounds twice above 2^53; not part of the property)",
     "LogSemiring is judged in the exp reading: e^x for a log-space float x is supplied as a rational with >= 45 significant digits of e^x and of e^x - 1 (Python decimal), the result r as the interval [e^(r-t), e^(r+t)], t = 8 * 2^-52 * (|x|+|y|+|r|) per operation (star: 8 * 2^-52 * |r|); log-space magnitudes above 745 are exercised only through mul (bit-exact)",
     "tolerance policy of Model/SemiringCheck.v (accept_q): equality whenever the exact result is a binary64 number, else 1e-12 relative or 2^-1074 absolute; +-inf accepted iff the exact value reaches the binary64 overflow threshold; law instances whose exact intermediate values leave the normal range are skipped (class 2)",
     "torch.maximum on the pair {+0., -0.} returns either zero depending on the kernel (scalar vs vectorised); maximum results are compared modulo the sign of zero",
     "the summation order of torch.sum / logsumexp is not modelled; sums are judged against the exact sum within (n+1) * 1e-12",
 ]
+FLOCQ_AXIOMS = ["ClassicalDedekindReals.sig_forall_dec", "ClassicalDedekindReals.sig_not_dec", "Classical_Prop.classic",
+                "FunctionalExtensionality.functional_extensionality_dep"]
 TRUSTED_EXTRA = [
+    "Flocq 4.1.0 (installed in user-contrib; IEEE754.Binary / BinarySingleNaN / Bits / PrimFloat and Core), used ONLY by Model/FloatFormat.v, Model/FloatFormatWire.v, Proofs/FloatFormat{Laws,Payload,Prim}.v and part (E) of Props/C08.v. The 15 float-format theorems of Props/C08.v depend on exactly four standard-library axioms, through Coq.Reals on which Flocq's specification of rounding is built: "
+    + ", ".join(FLOCQ_AXIOMS) + " (the first two axiomatise the classical Dedekind reals, the third is excluded middle, the fourth functional extensionality). harness/core.py accepts these four by exact name and only for C08 (ALLOWED_AXIOMS / AXIOM_SCOPE); any other axiom fails the audit. The 28 exact-carrier / code-formula / oracle theorems remain closed under the global context",
     "Coq.Floats.FloatAxioms (specification of the primitive float operations) for the L0' theorems; Print Assumptions lists exactly which of them each theorem uses",
     "Python decimal (>= 45 digits) for e^x and fractions.Fraction for the exact value of a binary64 number, on the harness side of the Log comparison",
 ]
@@ -224,6 +232,12 @@ def _judge_kernel(ctx, cf, vals, infos, describe, tag):
     """register a batch that is evaluated only inside Coq (vm_compute): the PrimFloat model"""
     if vals: ctx.batches.append(Batch("coq", cf, vals, infos, describe, tag, len(vals), None, 0))
 
+def _judge_flocq(ctx, cf, cases, tag):
+    """register a batch evaluated only inside Coq on the Flocq model (Model/FloatFormat.v); sharded"""
+    vals = list(cases.keys())
+    infos = [dict(cases[v], _val=v) for v in vals]
+    if vals: ctx.batches.append(Batch("flocq", cf, vals, infos, lambda info, c, cf=cf: FF.describe(cf, info["_val"], info, c), tag, len(vals), None, 0))
+
 _RES_RE = re.compile(r"=\s*(\[[^\]]*\])\s*:\s*list nat", re.S)
 def run_coq_multi(groups, tag):
     """[(cf, values)] -> [codes]; ONE Coq file with one vm_compute per group (one coqc start-up)"""
@@ -242,7 +256,7 @@ def run_coq_multi(groups, tag):
             f.write("Definition cases%d : list %s := [\n" % (k, cf.ty.coqty()))
             f.write(";\n".join(cf.ty.coq(v) for v in vs))
             f.write("\n].\nEval vm_compute in (List.map %s cases%d).\n" % (cf.coq_name, k))
-    rc, out = sh(["timeout", "900", "coqc", "-q", "-R", os.path.join(COQDIR, "theories"), "Fggs", path], timeout=1000, cwd=d)
+    rc, out = sh(["timeout", "900", "coqc", "-q", "-noglob", "-R", os.path.join(COQDIR, "theories"), "Fggs", path], timeout=1000, cwd=d)
     if rc != 0: raise BuildError("coqc failed on %s:\n%s" % (path, out[-3000:]))
     res = _RES_RE.findall(out)
     if len(res) != len(groups): raise BuildError("could not parse coqc output of %s (%d results for %d groups)" % (path, len(res), len(groups)))
@@ -265,11 +279,24 @@ def dispatch(ctx):
         picks = {}
         obs = [b for b in ctx.batches if b.kind == "ocaml"]
         cbs = [b for b in ctx.batches if b.kind == "coq"]
+        fbs = [b for b in ctx.batches if b.kind == "flocq"]
         for b in obs:
             picks[id(b)] = sorted(rng.sample(range(len(b.vals)), min(len(b.vals), b.coq_sample)))
         # the two Coq runs first (they are the long poles), then the extracted driver in chunks
         kfut = ex.submit(run_coq_multi, [(b.cf, [b.vals[i] for i in picks[id(b)]]) for b in obs], "c08-kernel") if obs else None
         cfut = ex.submit(run_coq_multi, [(b.cf, b.vals) for b in cbs], "c08-float") if cbs else None
+        # the Flocq model: a few Coq processes in parallel (loading Flocq costs ~10 s each)
+        nshard = int(os.environ.get("VERIF_C08_FLOCQ_SHARDS", "4"))
+        allf = [(bi, i) for bi, b in enumerate(fbs) for i in range(len(b.vals))]
+        per = max(1, (len(allf) + nshard - 1) // nshard)
+        ffuts = []
+        for k in range(0, len(allf), per):
+            part = allf[k:k + per]
+            groups, index = [], []
+            for bi in sorted({bi for bi, _ in part}):
+                ix = [i for b2, i in part if b2 == bi]
+                groups.append((fbs[bi].cf, [fbs[bi].vals[i] for i in ix])); index.append((bi, ix))
+            ffuts.append((index, ex.submit(FF.run_flocq, groups, "c08-flocq-%d" % (k // per))))
         for b in obs:
             b.futs = [ex.submit(run_ocaml, b.cf, b.vals[i:i + b.chunk]) for i in range(0, len(b.vals), b.chunk)]
         for b in obs:
@@ -279,6 +306,12 @@ def dispatch(ctx):
             for b, cs in zip(cbs, cfut.result()): b.codes = cs
             ctx.kernel += sum(len(b.vals) for b in cbs)
         if dbg: print("  float batches done: %.1fs" % (time.time() - t0), file=sys.stderr, flush=True)
+        for b in fbs: b.codes = [None] * len(b.vals)
+        for index, fut in ffuts:
+            for (bi, ix), cs in zip(index, fut.result()):
+                for i, c in zip(ix, cs): fbs[bi].codes[i] = c
+        ctx.kernel += sum(len(b.vals) for b in fbs)
+        if dbg: print("  Flocq batches done: %.1fs" % (time.time() - t0), file=sys.stderr, flush=True)
         if kfut is not None:
             for b, cs in zip(obs, kfut.result()):
                 for i, c in zip(picks[id(b)], cs):
@@ -649,7 +682,14 @@ def _pt_variants(vals, default, shift, torch, ind):
     k = PA(n); l = PA(n); put("product", PT(v.clone().unsqueeze(0).expand(n, n).clone(), (k, l), (productAxis((k, l)),), default))
     k = PA(n); put("product-diag", PT(v.clone(), (k,), (productAxis((k, k)),), default))
     k = PA(n); put("diag-sum", PT(v.clone(), (k,), (k, SumAxis(0, k, 0)), default))
+    # NO physical axis but a non-unit virtual shape: a one-hot vector (what PatternedTensor.eye(n, S)[i] is) and a
+    # matrix with a single stored cell; every other cell is the default (seeded C08-d: a "scalar" fast path of mul)
+    hot = (1 + shift) % n
+    put("onehot", PT(v[hot].clone(), (), (SumAxis(hot, ind.unitAxis, n - hot - 1),), default))
+    put("onecell", PT(v[hot].clone(), (), (SumAxis(hot, ind.unitAxis, n - hot - 1), SumAxis(2, ind.unitAxis, n - 3)), default))
     return out
+_PT_ONEHOT = ("onehot", "onecell")
+_PT_ONEHOT_PARTNERS = ("dense1", "diag", "expand", "dense2-cols", "onehot", "onecell")
 
 def part_pt(ctx, SR, tables):
     import torch
@@ -677,6 +717,8 @@ def part_pt(ctx, SR, tables):
                         for ny, py in ys[(nn,)]: pairs.append((nx, px, ny, py))
                     for nx, px in xs[(nn,)]:
                         for ny, py in ys[(nn, nn)]: pairs.append((nx, px, ny, py))
+                    pairs = [q for q in pairs if not ((q[0] in _PT_ONEHOT and q[2] not in _PT_ONEHOT_PARTNERS) or
+                                                      (q[2] in _PT_ONEHOT and q[0] not in _PT_ONEHOT_PARTNERS))]
                     for nx, px, ny, py in pairs:
                         for op in (0, 1, 2):
                             ctx.count("PatternedTensor/%s.%s" % (SRNAME[sr], OPNAME[op]))
@@ -776,6 +818,10 @@ def run(tier, seed):
     timed("laws", part_laws, ctx, SR)
     timed("bool", part_bool, ctx, SR)
     timed("patterned", part_pt, ctx, SR, tables)
+    ffcases = timed("float formats (float32 + float64 vs Flocq)", FF.part_formats, ctx)
+    for cf in (FF.FFBIN, FF.FFUN, FF.FFCMP, FF.FFINT):
+        _judge_flocq(ctx, cf, ffcases.d[cf.kind], cf.kind)
+    ctx.flocq_cases = {k: len(v) for k, v in ffcases.d.items()}
     timed("model (extracted driver + kernel)", dispatch, ctx)
     if os.environ.get("VERIF_DEBUG"):
         for v in ctx.viol[:25]: print("   V: " + v.what[:260], file=sys.stderr)
@@ -786,7 +832,7 @@ def run(tier, seed):
         if k in seen and not v.finding_key: continue
         seen[k] = 1; viol.append(v)
     cov = dict(evaluations=ctx.n_eval, distinct_nontrivial=len(ctx.nontrivial),
-               rule="one evaluation = one implementation result judged in Coq (scalar op on a 0-dim or 1-dim tensor, star, from_int, sum, one side-pair of a law instance, one leastness test) or one add/mul/sub of two PatternedTensors compared elementwise with the dense result and with the judged table; non-trivial = distinct (operation, operands) with at least one operand outside {0, 1} / distinct law instance that is not skipped (class exact or tolerance) / distinct (pattern pair, defaults, shift)",
+               rule="one evaluation = one implementation result judged in Coq (scalar op on a 0-dim or 1-dim tensor, star, from_int, sum, one side-pair of a law instance, one leastness test) or one add/mul/sub of two PatternedTensors compared elementwise with the dense result and with the judged table; float-format stream: one float32/float64 result (plain tensor element, or PatternedTensor add/mul/sub counted once per call) compared with the Flocq model; non-trivial = distinct (operation, operands) with at least one operand outside {0, 1} / distinct law instance that is not skipped (class exact or tolerance) / distinct (pattern pair, defaults, shift)",
                grids=dict(real=[float(v).hex() for v in REAL_GRID], viterbi=[float(v).hex() for v in VIT_GRID], log=[float(v).hex() for v in LOG_GRID + LOG_BIG],
                           extra="-0.0 at the float level; triples over reduced grids of %d / %d / %d values" % (len(REAL_TRI), len(VIT_TRI), len(LOG_TRI))),
                histogram=ctx.hist, law_instance_classes=getattr(ctx, "law_classes", {}),
@@ -795,12 +841,14 @@ def run(tier, seed):
                                       dict(kind="law", law=LAWNAME[7], sr="RealSemiring", x=INF, y=0.0, z=0.0,
                                            impl=[float(t) for t in law_eval(SR[0], 7, _t0(INF), _t0(0.0), _t0(0.0))])],
                kernel_reevaluated=ctx.kernel, timings_s=timings,
-               known_finding_predicates={},
+               known_finding_predicates={FF.F22_KEY: "a float32 PatternedTensor add/mul/sub whose to_dense raises RuntimeError(... overflow) while the result's default is a finite binary64 number of magnitude above the float32 maximum"},
                repaired_findings={"F1": "362cf81 PatternedTensor.nan_to_num_ passes neginf (was: Log/Viterbi mul/sub on PatternedTensors gave -float_max for -inf)",
                                   "F2": "d2ec7af ViterbiSemiring.star(0) is 0 (was: where(x >= 0, inf, 0.))",
                                   "F21": "ad94aa4 PatternedTensor.exp/expm1/log/log1p treat the default like torch treats an element (was: LogSemiring.sub on PatternedTensors raised whenever exp(y.default - x.default) >= 1)"},
-               open_items=["tier B (needs the rounding specification): x*1 = x, monotonicity of mul on [0,inf] on binary64 -- not claimed",
-                           "float32 carriers are not exercised",
+               float_format_cases=getattr(ctx, "flocq_cases", {}),
+               open_items=["associativity of float add/mul and distributivity of Real mul over add are FALSE on binary32 and binary64 (C08_float_assoc_distr_refuted_binary32/64); they are laws of the exact carriers only (part A), which is where star induction / least-solution statements live",
+                           "RealSemiring.star = 1/(1-x) is modelled and compared bit-exactly for float32/float64, but the float-level statement star x = 1 + x*star x is not claimed (it is false after rounding); only star x = inf for x >= 1 and the exact-carrier law are proved",
+                           "F22 (float32 PatternedTensor with a default beyond the float32 range cannot be densified) is open in /repo; reported as KNOWN-FINDING",
                            "LogSemiring add/sub/star/sum are judged within a tolerance in the exp reading, not bit-exactly (transcendental functions)",
                            "C08_viterbi_old_code_laws_partial concerns the pre-d2ec7af formula viterbi_star_old only (record of F2); the current code has the full C08_viterbi_code_laws"])
     return cov, viol
@@ -872,6 +920,8 @@ def replay(path):
         code = run_coq(BOOLC, [(op, 0, xs, rv)], tag="replay")[0]
         print("BoolSemiring op %d on %r = %r; verdict code %d" % (op, xs, rv, code))
         return 1 if code else 0
+    if kind in ("ffbin", "ffun", "ffcmp", "ffint", "ffpt"):
+        return FF.replay_case(c, run_coq)
     if kind in ("fbin", "fun"):
         sr, x = c["sr"], fl(c["x"])
         if kind == "fbin":
@@ -911,7 +961,7 @@ def replay(path):
 
 MANIFEST = dict(
     level="proof",
-    text="Coq theorems: bool, [0,inf] over Q (Real; Log read through exp) and [-inf,inf] with max/+ (Viterbi) are commutative semirings incl. annihilation of the infinite elements, naturally ordered, with star = least solution of y = 1 + x*y; from_nat is the unique homomorphism; sub(x,y)+y = x for y <= x; sum = fold of add in any order. The formulas of semirings.py as written (nan_to_num after mul, masked 1/(1-x), relu-sub, the two branches of Log.sub/star) are proved equal to the carrier operations; ViterbiSemiring.star (where(x > 0, inf, 0.)) is the least solution everywhere; the pre-repair formula (x >= 0) is refuted at 0 as a record of F2. On binary64 (primitive floats) annihilation incl. inf, commutativity, max laws, star at 0/1/inf/x>=1, nan_to_num are proved for all values. The correspondence check compares every result bit-exactly with the PrimFloat model (Real/Viterbi) and with the exact carriers, evaluates law instances on the implementation, and requires PatternedTensor results to equal the dense ones.",
-    note="Trusted: Coq kernel + vm_compute, FloatAxioms (spec of primitive floats), extraction cross-checked against vm_compute, Python decimal for e^x in the Log comparison. float32 not exercised; float associativity/distributivity are false and not claimed.",
-    technique="Coq proof (exact carriers + code formulas + PrimFloat) + model/implementation correspondence with verified-spec oracle",
+    text="Coq theorems: bool, [0,inf] over Q (Real; Log read through exp) and [-inf,inf] with max/+ (Viterbi) are commutative semirings incl. annihilation of the infinite elements, naturally ordered, with star = least solution of y = 1 + x*y; from_nat is the unique homomorphism; sub(x,y)+y = x for y <= x; sum = fold of add in any order. The formulas of semirings.py as written (nan_to_num after mul, masked 1/(1-x), relu-sub, the two branches of Log.sub/star) are proved equal to the carrier operations; ViterbiSemiring.star (where(x > 0, inf, 0.)) is the least solution everywhere; the pre-repair formula (x >= 0) is refuted at 0 as a record of F2. On binary64 (primitive floats) annihilation incl. inf, commutativity, max laws, star at 0/1/inf/x>=1, nan_to_num are proved for all values. For EVERY IEEE binary format (Flocq binary_float prec emax, round-to-nearest-even; binary32 and binary64 instantiated, NaN payloads abstracted) and all values: commutativity, 0 annihilates Real mul incl. 0*inf, x+0 = x, x*1 = x, monotonicity of add/mul on [0,inf], max laws, exact distributivity of the Viterbi product over max, -inf annihilates incl. -inf + +inf, the Viterbi star law; associativity and Real distributivity are refuted on floats with binary32/binary64 witnesses. The correspondence check compares every float32 and float64 result bit-exactly with the Flocq model, every float64 result with the PrimFloat model (Real/Viterbi) and with the exact carriers, evaluates law instances on the implementation, and requires PatternedTensor results to equal the dense ones.",
+    note="Trusted: Coq kernel + vm_compute, FloatAxioms (spec of primitive floats), Flocq 4.1.0 and through it four named standard-library axioms of the real numbers (float-format theorems only), extraction cross-checked against vm_compute, Python decimal for e^x in the Log comparison. float associativity/distributivity are false (refuted in Coq) and belong to the exact carriers only.",
+    technique="Coq proof (exact carriers + code formulas + PrimFloat + Flocq float formats) + model/implementation correspondence with verified-spec oracle",
     design_ref="DESIGN.md section 6, C08")
